@@ -125,18 +125,43 @@ def check(ctx) -> None:
     # O3: the position-wise difference is collected symmetrically
     ctx.rule("C17-O3", "the two difference lists of _get_diff_mol are filled by mirrored statements under the same guards", 1)
     gd = prog.func("synrbl.SynUtils.chem_utils._get_diff_mol")
-    gcfg = CFG(gd.node)
-    apps = {}
+    # canonical form (synlint/canon.py): each difference list is a comprehension.  Symmetric = both are built from the
+    # same generators (same pairs, same `differs` condition) and pick the two sides of the pair: (s1, s2) of a zip, or
+    # A[i] / B[i] of one index set.
+    comps = {}
     for n in own_nodes(gd.node):
-        if isinstance(n, ast.Call) and isinstance(n.func, ast.Attribute) and n.func.attr == "append" and isinstance(n.func.value, ast.Name):
-            g = tuple(sorted("%s:%s" % (unparse(c), p) for c, p in gcfg.guards(gcfg.node_of(n))))
-            apps.setdefault(n.func.value.id, []).append(g)
-    lists = sorted(apps)
-    sym = len(lists) == 2 and sorted(apps[lists[0]]) == sorted(apps[lists[1]])
-    zipped = any(isinstance(n, ast.For) and isinstance(n.iter, ast.Call) and getattr(n.iter.func, "id", "") == "zip" and len(n.iter.args) == 2 for n in own_nodes(gd.node))
-    ctx.instance("C17-O3", "_get_diff_mol: appends to %s under guards %s; zip over both sides: %s" % (lists, [apps[k] for k in lists], zipped), gd.loc(), ok=sym and zipped)
-    if not (sym and zipped):
-        ctx.finding("C17-O3", "chem_utils._get_diff_mol:asymmetric", gd.loc(), "the molecules that differ are not collected symmetrically for the two arguments (appends %s; zip over both lists: %s): wc_similarity(a, b) and wc_similarity(b, a) then compare different molecule sets" % ({k: list(v) for k, v in apps.items()}, zipped))
+        if isinstance(n, ast.Assign) and len(n.targets) == 1 and isinstance(n.targets[0], ast.Name) and isinstance(n.value, ast.ListComp):
+            comps[n.targets[0].id] = n.value
+    joined = [c.args[0].id for c in calls(gd) if isinstance(c.func, ast.Attribute) and c.func.attr == "join" and c.args and isinstance(c.args[0], ast.Name)]
+    lists = [x for x in joined if x in comps]
+    sym, why = False, "the two difference lists are not both comprehensions (%s)" % sorted(comps)
+    if len(lists) == 2:
+        c1, c2 = comps[lists[0]], comps[lists[1]]
+        g1 = [unparse(g) for g in c1.generators]
+        g2 = [unparse(g) for g in c2.generators]
+        if g1 != g2:
+            sym, why = False, "the lists iterate different pairs / conditions (%s vs %s)" % (g1, g2)
+        else:
+            gen = c1.generators[0]
+            e1, e2 = c1.elt, c2.elt
+            if isinstance(gen.target, ast.Tuple) and len(gen.target.elts) == 2 and isinstance(gen.iter, ast.Call) and getattr(gen.iter.func, "id", "") == "zip" and len(gen.iter.args) == 2:
+                t = [x.id for x in gen.target.elts if isinstance(x, ast.Name)]
+                cond_names = {x.id for c in gen.ifs for x in ast.walk(c) if isinstance(x, ast.Name)}
+                sym = isinstance(e1, ast.Name) and isinstance(e2, ast.Name) and [e1.id, e2.id] == t and set(t) <= cond_names
+                why = "zip pairs %s, elements %s / %s, condition over %s" % (t, unparse(e1), unparse(e2), sorted(cond_names))
+            elif isinstance(e1, ast.Subscript) and isinstance(e2, ast.Subscript) and isinstance(gen.target, ast.Name) and unparse(e1.slice) == gen.target.id == unparse(e2.slice) and unparse(e1.value) != unparse(e2.value):
+                # index form: the index set must be computed from both sequences
+                src = gen.iter
+                if isinstance(src, ast.Name):
+                    a_ = assignments_to(gd, src.id)
+                    if len(a_) == 1:
+                        src = a_[0][1]
+                txt = unparse(src)
+                sym = unparse(e1.value) in txt and unparse(e2.value) in txt and "!=" in txt
+                why = "index set %s, elements %s / %s" % (txt[:60], unparse(e1), unparse(e2))
+    ctx.instance("C17-O3", "_get_diff_mol: %s" % why, gd.loc(), ok=sym)
+    if not sym:
+        ctx.finding("C17-O3", "chem_utils._get_diff_mol:asymmetric", gd.loc(), "the molecules that differ are not collected symmetrically for the two arguments (%s): wc_similarity(a, b) and wc_similarity(b, a) then compare different molecule sets" % why)
     # O5: every leaf of the recursion is canonicalised
     ctx.rule("C17-O5", "every return of normalize_smiles is a join of recursive results or the RDKit canonical form of the molecule", 3)
     CANON = "synrbl.SynUtils.chem_utils.canon_smiles"
